@@ -140,3 +140,15 @@ def gen_doc(rng, dup=False, max_paras=3):
     elif rng.random() < 0.15:
         out += "\n"
     return out
+
+
+def dump_every_way(d):
+    """d.dump(), after checking that dump(fd) into a binary file object and convert_to_text() give the same text"""
+    import io
+    out = d.dump()
+    fd = io.BytesIO()
+    d.dump(fd)
+    if fd.getvalue().decode("utf-8") != out or d.convert_to_text() != out:
+        raise AssertionError("dump(fd) wrote %r, convert_to_text() gives %r, dump() gives %r"
+                             % (fd.getvalue().decode("utf-8", "replace"), d.convert_to_text(), out))
+    return out
